@@ -270,6 +270,9 @@ def check_rescale(lib, spec):
         sim.integrator = spec["integrator"]
         if spec["integrator"] == "whfast":
             sim.dt = 0.05
+            sim.ri_whfast.safe_mode = spec.get("safe_mode", 1)
+        elif spec["integrator"] == "leapfrog":
+            sim.dt = 0.01
         sim.add(m=1.)
         sim.add(m=1e-3, a=1., e=0.1)
         sim.add(m=1e-3, a=1.8, e=0.05, f=1.)
@@ -277,6 +280,7 @@ def check_rescale(lib, spec):
         v.particles[1].x = big
         v.particles[2].vy = -0.5 * big
         sim.integrate(spec["tmax"], exact_finish_time=0)
+        sim.synchronize()
         out.append((vec(v.particles[1]) + vec(v.particles[2]), v.lrescale))
     (ref, l0), (got, l1) = out
     # linear equations: var_big * exp(lrescale) == big * var_1
@@ -385,8 +389,11 @@ def search(ctx, rebound, libdir):
                           "testparticle_class": "massless", "tp_variation": True}, ("t2tp", integ))
 
     # (c) rescaling and chaos indicators
-    for integ in ("ias15", "whfast"):
-        do("rescale", {"integrator": integ, "big": 10 ** rng.uniform(99.2, 99.9), "tmax": rng.uniform(20, 40)}, ("rescale", integ))
+    for integ, sm in (("ias15", None), ("whfast", 1), ("whfast", 0), ("leapfrog", None)):
+        spec = {"integrator": integ, "big": 10 ** rng.uniform(99.2, 99.9), "tmax": rng.uniform(20, 40)}
+        if sm is not None:
+            spec["safe_mode"] = sm
+        do("rescale", spec, ("rescale", integ) if sm is None else ("rescale", integ, "safe_mode=%d" % sm))
     for rep in range(ctx.scale(1, 4)):
         do("megno", {"m1": 10 ** rng.uniform(-5, -4), "m2": 10 ** rng.uniform(-5, -4), "e1": rng.uniform(0, 0.05),
                      "e2": rng.uniform(0, 0.05), "a2": rng.uniform(1.9, 2.6), "f2": rng.uniform(0, 6), "seed": rng.randrange(1 << 30),
